@@ -207,31 +207,92 @@ func drawFilter(r *run.Rand, nodes []string) filter {
 	}
 }
 
-// cliFilter picks a -x value for which the reading of the flag is not in question: a whole-segment prefix
-// of some node such that "contains F" and "equals F or starts with F." select the same nodes. "" = no flag.
-func cliFilter(r *run.Rand, nodes []string) string {
-	if len(nodes) == 0 || r.Chance(1, 3) {
-		return ""
+// cliWords picks the comma separated words of a -x value. Every word is one for which the reading of the flag
+// is not in question: over the nodes of the graph, "the name contains the word" and "the name equals the word or
+// starts with word+'.'" select the same set (a word that occurs in no name at all trivially qualifies). The
+// words deliberately carry characters that mean something to other matchers but nothing to a literal one:
+// '.' between segments while a look-alike neighbour (pre.db_v2 next to pre.db.v2) exists, '$' of nested type
+// names, and words with ( ) [ ] + * that occur in no name. nil = no flag.
+func cliWords(r *run.Rand, nodes []string, twins [][2]string) ([]string, []string) {
+	if len(nodes) == 0 || r.Chance(1, 4) {
+		return nil, nil
 	}
-	for try := 0; try < 8; try++ {
-		n := nodes[r.Intn(len(nodes))]
-		if n == "" || strings.HasPrefix(n, ".") {
-			continue // a node of the default package: not used to build a filter
+	unambiguous := func(w string) bool {
+		if w == "" || strings.Contains(w, ",") {
+			return false
 		}
-		segs := strings.Split(n, ".")
-		f := strings.Join(segs[:r.Range(1, len(segs))], ".")
-		ok := true
 		for _, k := range nodes {
-			if strings.Contains(k, f) != (k == f || strings.HasPrefix(k, f+".")) {
-				ok = false
+			if strings.Contains(k, w) != (k == w || strings.HasPrefix(k, w+".")) {
+				return false
+			}
+		}
+		return true
+	}
+	// segment-prefixes of the dotted twin that reach beyond the planted '.'-versus-'_' position and select
+	// at least one node of this graph
+	var twinPrefixes []string
+	for _, tw := range twins {
+		for _, side := range []int{0, 1} {
+			a, b := tw[side], tw[1-side]
+			i := 0
+			for i < len(a) && i < len(b) && a[i] == b[i] {
+				i++
+			}
+			if i >= len(a) || i >= len(b) || a[i] != '.' || b[i] == '.' {
+				continue
+			}
+			segs := strings.Split(a, ".")
+			for n := 1; n <= len(segs); n++ {
+				p := strings.Join(segs[:n], ".")
+				if len(p) <= i {
+					continue
+				}
+				for _, k := range nodes {
+					if k == p || strings.HasPrefix(k, p+".") {
+						twinPrefixes = append(twinPrefixes, p)
+						break
+					}
+				}
+			}
+		}
+	}
+	junk := []string{"Impl(", "(x)", "a+b", "[ab]", "v1)", "x*y", "Entry$", "^com", "\\d", "b{2}", "c?d+"}
+	var dollar []string
+	for _, k := range nodes {
+		if strings.Contains(k, "$") {
+			dollar = append(dollar, k)
+		}
+	}
+	var words, kinds []string
+	for n := r.Range(1, 2); n > 0; n-- {
+		for try := 0; try < 8; try++ {
+			var w, kind string
+			switch x := r.Intn(10); {
+			case x < 3 && len(twinPrefixes) > 0:
+				w, kind = twinPrefixes[r.Intn(len(twinPrefixes))], "dot-with-lookalike-neighbour"
+			case x < 5 && len(dollar) > 0:
+				w, kind = dollar[r.Intn(len(dollar))], "dollar-name"
+			case x == 5 || (x == 6 && len(words) > 0):
+				w, kind = junk[r.Intn(len(junk))], "metacharacters-in-no-name"
+			default:
+				k := nodes[r.Intn(len(nodes))]
+				if k == "" || strings.HasPrefix(k, ".") {
+					continue // a node of the default package: not used to build a filter
+				}
+				segs := strings.Split(k, ".")
+				w, kind = strings.Join(segs[:r.Range(1, len(segs))], "."), "segment-prefix"
+				if strings.Contains(w, "$") {
+					kind = "dollar-name"
+				}
+			}
+			if unambiguous(w) {
+				words = append(words, w)
+				kinds = append(kinds, kind)
 				break
 			}
 		}
-		if ok {
-			return f
-		}
 	}
-	return ""
+	return words, kinds
 }
 
 func included(nodes map[string]bool, pred func(string) bool) map[string]bool {
@@ -277,6 +338,8 @@ func runCase(c *run.Ctx, o *run.Outcome) {
 	if (useCLI && cfgH && cfgP) || r.Chance(1, 4) {
 		opts.MinPkgDepth = 2
 	}
+	// every other CLI case gets a '.'-versus-'_' pair of packages for the -x words
+	opts.ForceTwins = useCLI && (c.Index/cliEvery(c.Tier))%2 == 0
 	m := archgen.Generate(r.Fork(), opts)
 	fr := r.Fork()
 	deps, idmap, idents := ToCoca(m)
@@ -497,7 +560,7 @@ func runCase(c *run.Ctx, o *run.Outcome) {
 
 	// ---- the real CLI
 	if useCLI {
-		runCLI(c, o, fr, witness, deps, idents, cfgH, cfgP, want0, wantH, wantP, wantHP)
+		runCLI(c, o, fr, witness, deps, idents, cfgH, cfgP, want0, wantH, wantP, wantHP, m.Twins)
 	}
 	if c.Index < 64 {
 		o.Sample = map[string]interface{}{"model": m.Describe(), "expected_nodes": len(want0.Nodes), "expected_edges": len(want0.Edges),
@@ -548,7 +611,7 @@ func checkDot(o *run.Outcome, m *archgen.Model, stage string, want *oracle.ArchG
 }
 
 func runCLI(c *run.Ctx, o *run.Outcome, r *run.Rand, witness map[string]interface{}, deps, idents []core_domain.CodeDataStruct,
-	cfgH, cfgP bool, want0, wantH, wantP, wantHP *oracle.ArchGraph) {
+	cfgH, cfgP bool, want0, wantH, wantP, wantHP *oracle.ArchGraph, twins [][2]string) {
 	want, stage := want0, ""
 	switch {
 	case cfgH && cfgP:
@@ -561,10 +624,14 @@ func runCLI(c *run.Ctx, o *run.Outcome, r *run.Rand, witness map[string]interfac
 	if want == nil { // -H -P with a one-segment package: not judged (cannot happen: the generator was asked for depth >= 2)
 		return
 	}
-	f := cliFilter(r, sortedSet(want.Nodes))
+	words, wordKinds := cliWords(r, sortedSet(want.Nodes), twins)
+	f := strings.Join(words, ",")
 	args := []string{"arch"}
 	if f != "" {
 		args = append(args, "-x", f)
+	}
+	for _, k := range wordKinds {
+		o.Count("cli_filter_words_"+k, 1)
 	}
 	if cfgH {
 		args = append(args, "-H")
@@ -595,7 +662,34 @@ func runCLI(c *run.Ctx, o *run.Outcome, r *run.Rand, witness map[string]interfac
 	}
 	dot := string(b)
 	witness["cli"] = map[string]interface{}{"args": args, "arch.dot": dot, "expected": graphStrings(want)}
-	pred := func(k string) bool { return f == "" || k == f || strings.HasPrefix(k, f+".") }
+	pred := func(k string) bool {
+		if len(words) == 0 {
+			return true
+		}
+		for _, w := range words {
+			if k == w || strings.HasPrefix(k, w+".") {
+				return true
+			}
+		}
+		return false
+	}
+	if len(words) > 0 {
+		inc := included(want.Nodes, pred)
+		o.Count("cli_filter_nodes_included", len(inc))
+		o.Count("cli_filter_nodes_excluded", len(want.Nodes)-len(inc))
+		// how many excluded names a pattern reading of the words ('.' = any character) would have let in
+		for n := range want.Nodes {
+			if inc[n] {
+				continue
+			}
+			for _, w := range words {
+				if strings.Contains(w, ".") && looseDotMatch(n, w) {
+					o.Count("cli_filter_excluded_lookalikes('.'_vs_other_char)", 1)
+					break
+				}
+			}
+		}
+	}
 	desc := "cli " + strings.Join(args, " ")
 	d, err := oracle.ParseArchDot(dot)
 	if err != nil {
@@ -626,6 +720,25 @@ func runCLI(c *run.Ctx, o *run.Outcome, r *run.Rand, witness map[string]interfac
 	for _, mm := range oracle.CheckArchDot(stage, want, included(want.Nodes, pred), open, d) {
 		o.Violate("cli-"+mm.Sig, "%s [%s]", mm.Msg, desc)
 	}
+}
+
+// looseDotMatch: does name contain word when every '.' of the word may stand for any one character?
+// (bookkeeping only: counts the look-alikes a filter had to keep out)
+func looseDotMatch(name, word string) bool {
+	nr, wr := []rune(name), []rune(word)
+	for i := 0; i+len(wr) <= len(nr); i++ {
+		ok := true
+		for j, ch := range wr {
+			if ch != '.' && nr[i+j] != ch {
+				ok = false
+				break
+			}
+		}
+		if ok {
+			return true
+		}
+	}
+	return false
 }
 
 func head(s string) string {
